@@ -111,7 +111,7 @@ Proof.
   - unfold ds_rename_axis. destruct (ds_axis_ref s r); [apply rename_id_shared; exact Hs | exact Hs].
   - unfold ds_var_rename_axis. destruct (find_var s k); [|exact Hs].
     destruct (axis_info _ r); [apply rename_id_shared; exact Hs | exact Hs].
-  - unfold ds_set_dims. destruct (negb _); [exact Hs|].
+  - unfold ds_set_dims. destruct (negb _); [exact Hs|]. destruct (negb _); [exact Hs|].
     apply (fold_rename_shared (fun st p => rename_id st (fst p) (snd p))); [intros; apply rename_id_shared; assumption | exact Hs].
   - unfold ds_rename_axes.
     apply (fold_rename_shared (fun st p => ds_rename_axis (ByName (fst p)) (snd p) st)); [|exact Hs].
